@@ -240,8 +240,77 @@ let run_view (toks : string list) : string =
         | Prelude.Panic -> "P") (optlist ol)))
   | _ -> failwith "bad VIEW case"
 
+(* ---- SESS2: the SESS kind of drv_core.ml plus simple iteration ---- *)
+let summary (pts : string list) (fin : string) : string =
+  let txt = String.concat ";" pts in
+  Printf.sprintf "n=%d end=%s h=%s%s" (Stdlib.List.length pts) fin (fnv_string txt)
+    (if String.length txt <= 1500 then " pts=" ^ txt else "")
+
+let drain_limited next show (limit : int option) (s : PagedReader.pr) it : PagedReader.pr * string =
+  let pts = ref [] and count = ref 0 and last = ref s in
+  let rec loop s it =
+    last := s;
+    if (match limit with Some n -> !count >= n | None -> false) then "none" else
+      match next s it with
+      | (s', Prelude.Ok (it', QueueReader.Item p)) -> pts := show p :: !pts; incr count; loop s' it'
+      | (s', Prelude.Ok (_, QueueReader.Done)) -> last := s'; "none"
+      | (s', Prelude.Err k) -> last := s'; "e" ^ err_name k
+      | (s', Prelude.Panic) -> last := s'; "P" in
+  let fin = loop s it in
+  (!last, summary (Stdlib.List.rev !pts) fin)
+
+let run_sess2 (toks : string list) : string =
+  match toks with
+  | fault :: devhex :: ops ->
+    let d0 = Device.dev_init (resolve_dev devhex) (fault_of fault) in
+    (match ReaderOpen.reader_open d0 with
+     | (_, Prelude.Ok ((s, _), xml)) ->
+       let st = ref s in
+       let outs = ref ["open:ok"] in
+       let lim l = if l = "all" then None else Some (int_of_string l) in
+       Stdlib.List.iter (fun t ->
+           let ls = !st.PagedReader.pr_log_size in
+           let o = match String.split_on_char ':' t with
+             | ["X"] -> "xml=" ^ fnv_hex (fnv_bytes fnv_init xml)
+             | ["R"; fo; recs; proto; limit] ->
+               (match Prog.rrun (QueueReader.raw_new (n_of_decimal fo) (n_of_decimal recs)
+                                   (Stdlib.List.map (fun r -> Meta.dtype_of r) (Stdlib.List.map parse_dtype
+                                      (Stdlib.List.filter (fun x -> x <> "") (String.split_on_char ',' proto))))) !st with
+                | (s1, Prelude.Ok it) ->
+                  let (s2, txt) = drain_limited (fun s it -> Prog.rrun (QueueReader.raw_next ls it) s)
+                      (fun p -> String.concat "," (Stdlib.List.map show_value p)) (lim limit) s1 it in
+                  st := s2; txt
+                | (s1, Prelude.Err k) -> st := s1; "new:e" ^ err_name k
+                | (s1, Prelude.Panic) -> st := s1; "new:P")
+             | "S" :: fo :: recs :: proto :: mask :: limit :: rest ->
+               let extra = match rest with
+                 | [il; cl; pose] -> Printf.sprintf ";il=%s;cl=%s;pose=%s" il cl pose
+                 | _ -> "" in
+               let pc = parse_desc (Printf.sprintf "fo=%s;rec=%s;proto=%s%s" fo recs proto extra) in
+               (match Prog.rrun (SimpleIter.simple_open pc (opts_of (int_of_string mask))) !st with
+                | (s1, Prelude.Ok it) ->
+                  let (s2, txt) = drain_limited (fun s it -> Prog.rrun (SimpleIter.simple_next fcos fsin fasin fatan2 ls it) s)
+                      show_point (lim limit) s1 it in
+                  st := s2; txt
+                | (s1, Prelude.Err k) -> st := s1; "new:e" ^ err_name k
+                | (s1, Prelude.Panic) -> st := s1; "new:P")
+             | ["B"; off; ln] ->
+               let (s', r) = Prog.rrun (FileBin.blob_read ls (n_of_decimal off) (n_of_decimal ln)) !st in
+               st := s';
+               (match r with
+                | Prelude.Ok data -> Printf.sprintf "ok n=%d h=%s" (Stdlib.List.length data) (fnv_hex (fnv_bytes fnv_init data))
+                | Prelude.Err k -> "e" ^ err_name k
+                | Prelude.Panic -> "P")
+             | _ -> failwith ("bad sess2 op " ^ t) in
+           outs := o :: !outs) ops;
+       with_misses (String.concat " # " (Stdlib.List.rev !outs))
+     | (_, Prelude.Err k) -> "open:e" ^ err_name k
+     | (_, Prelude.Panic) -> "open:P")
+  | _ -> failwith "bad SESS2 case"
+
 let run (kind : string) (toks : string list) : string option =
   match kind with
+  | "SESS2" -> let t = load_table toks in Some (run_sess2 t)
   | "PPOST" -> let t = load_table toks in Some (run_ppost t)
   | "SIMRD" -> let t = load_table toks in Some (run_simrd t)
   | "VIEW" -> let t = load_table toks in Some (run_view t)
